@@ -103,3 +103,35 @@ def stmt_of(pm, node):
 
 def contains(node, sub):
     return any(x is sub for x in ast.walk(node))
+
+
+def subst_names(expr, mapping):
+    """copy of `expr` with Name loads replaced by the expressions of `mapping` (name -> ast expr), repeatedly"""
+    import copy
+
+    class T(ast.NodeTransformer):
+        def visit_Name(self, n):
+            if isinstance(n.ctx, ast.Load) and n.id in mapping:
+                return self.visit(copy.deepcopy(mapping[n.id]))
+            return n
+    return T().visit(copy.deepcopy(expr))
+
+
+def single_assignments(stmts):
+    """name -> value expr for the names assigned exactly once, by a plain `name = expr`, in the statement list (not nested)"""
+    cnt = {}
+    val = {}
+    for s in stmts:
+        for n in ast.walk(s):
+            if isinstance(n, ast.Name) and isinstance(n.ctx, ast.Store):
+                cnt[n.id] = cnt.get(n.id, 0) + 1
+        if isinstance(s, ast.Assign) and len(s.targets) == 1 and isinstance(s.targets[0], ast.Name):
+            val[s.targets[0].id] = s.value
+    return {k: v for k, v in val.items() if cnt.get(k) == 1}
+
+
+def add_terms(expr):
+    """terms of a left-associated chain of + (sequence concatenation keeps the order)"""
+    if isinstance(expr, ast.BinOp) and isinstance(expr.op, ast.Add):
+        return add_terms(expr.left) + add_terms(expr.right)
+    return [expr]
